@@ -21,8 +21,18 @@ use crate::error::{Result, ZiporaError};
 use std::alloc::{Layout, alloc, dealloc};
 use std::cell::UnsafeCell;
 use std::ptr::NonNull;
+#[cfg(not(zipora_verif))]
 use std::sync::atomic::{AtomicU32, AtomicU64, AtomicUsize, Ordering};
+#[cfg(zipora_verif)]
+use crate::verif::sync::atomic::{AtomicU32, AtomicU64, AtomicUsize};
+#[cfg(zipora_verif)]
+use std::sync::atomic::Ordering;
+#[cfg(not(zipora_verif))]
 use std::sync::{Arc, Mutex};
+#[cfg(zipora_verif)]
+use std::sync::Arc;
+#[cfg(zipora_verif)]
+use crate::verif::sync::Mutex;
 
 /// Alignment for fixed capacity allocations
 const ALIGN_SIZE: usize = 8;
